@@ -1,4 +1,7 @@
 import ProductMD.Proofs.TreeInfoDoc
+import ProductMD.Proofs.C17General
+import ProductMD.Model.TreeInfoText
+import ProductMD.Proofs.TextOKDecide
 /-!
 # C17 — the legacy `[general]` section mirrors the authoritative sections
 
@@ -40,14 +43,14 @@ private theorem lookup_tree (t : TreeInfo) (g : IniSec) : (docList t g).lookup s
   have h1 : ¬ sGeneral = sTree := by decide
   simp [lookup_cons_eq, h1]
 
-/-- **C17.**  For every tree `t` and requested main variant `mv` that `dump` accepts, with `d` the written document:
+/-- what the property says of a document `d` written for tree `t` with requested main variant `mv`:
 family, version, name, arch, platforms of `[general]` equal `[release]` name / version, `"<name> <version>"`, `[tree]`
 arch / platforms; `timestamp` is the decimal form of `int(build_timestamp)` while `[tree] build_timestamp` is
 `str(build_timestamp)`; `variant` is the requested main variant, else the first *container key* in sorted order (`chosenKey`),
 `variants` the sorted container keys; `packagedir` / `repository` are the `packages` / `repository` paths of the variant that
 key designates (`getItem`), in a `src` tree falling back to `source_packages` / `source_repository` (`generalPath`), and are
 absent exactly when that yields nothing. -/
-theorem C17_mirror (t : TreeInfo) (mv : Option Str) (d : Ini) (h : serialize t mv = .ok d) :
+def Mirrors (t : TreeInfo) (mv : Option Str) (d : Ini) : Prop :=
     ∃ n key v, t.tree.ts.toInt = .ok n ∧ chosenKey t.variants mv = .ok key ∧ getItem (key.length + 1) t.variants key = .ok v ∧
       opt d sGeneral kFamily = opt d sRelease kName ∧ opt d sRelease kName = some t.release.name ∧
       opt d sGeneral kVersion = opt d sRelease kVersion ∧ opt d sRelease kVersion = some t.release.version ∧
@@ -58,7 +61,12 @@ theorem C17_mirror (t : TreeInfo) (mv : Option Str) (d : Ini) (h : serialize t m
       opt d sGeneral tVariant = some key ∧
       opt d sGeneral kVariants = some (Str.joinWith ',' (Ini.sortS (t.variants.map Variant.key))) ∧
       opt d sGeneral kPackagedir = generalPath t.tree.arch v.paths "packages".toList "source_packages".toList ∧
-      opt d sGeneral kRepository = generalPath t.tree.arch v.paths "repository".toList "source_repository".toList := by
+      opt d sGeneral kRepository = generalPath t.tree.arch v.paths "repository".toList "source_repository".toList
+
+/-- **C17, on the document.**  For every tree `t` and requested main variant `mv` that `dump` accepts, the written document
+mirrors the authoritative sections in `[general]` (`Mirrors`, spelled out above) — any number of variants, any nesting,
+integer or float timestamp. -/
+theorem C17_mirror (t : TreeInfo) (mv : Option Str) (d : Ini) (h : serialize t mv = .ok d) : Mirrors t mv d := by
   obtain ⟨n, key, v, w⟩ := serialize_spec h
   refine ⟨n, key, v, w.hn, w.hkey, w.hchosen, ?_⟩
   have hG : d.lookup sGeneral = some (generalOpts t n key v) := by rw [w.look, lookup_general]
@@ -96,6 +104,105 @@ theorem C17_mirror (t : TreeInfo) (mv : Option Str) (d : Ini) (h : serialize t m
     simp (decide := true) [hg, hb, releaseOpts, treeOptsFull, treeOpts, lookup_setsKV, lookup_setKV, lookup_cons_eq, hl] <;>
     (generalize generalPath _ _ _ _ = x; cases x <;> rfl)
 
+/-- only options that are not comment-named enter `Mirrors`, so it transfers to any document that agrees on those -/
+theorem Mirrors.congr {t : TreeInfo} {mv : Option Str} {d d' : Ini} (he : ∀ s k, nc k = true → opt d' s k = opt d s k)
+    (h : Mirrors t mv d) : Mirrors t mv d' := by
+  obtain ⟨n, key, v, h1, h2, h3, m⟩ := h
+  refine ⟨n, key, v, h1, h2, h3, ?_⟩
+  rw [he sGeneral kFamily (by decide), he sRelease kName (by decide), he sGeneral kVersion (by decide), he sRelease kVersion (by decide),
+    he sGeneral kName (by decide), he sGeneral kArch (by decide), he sTree kArch (by decide), he sGeneral kPlatforms (by decide),
+    he sTree kPlatforms (by decide), he sGeneral kTimestamp (by decide), he sTree kBuildTs (by decide), he sGeneral tVariant (by decide),
+    he sGeneral kVariants (by decide), he sGeneral kPackagedir (by decide), he sGeneral kRepository (by decide)]
+  exact m
+
+/-- **C17, on the bytes.**  The text `dumps()` returns, read by the INI reader model (`IniParse.parse`, CPython's
+`configparser` as the library configures it, with blank predicate `sp`), is a document with the same mirror: the reader
+inverts the writer (`Proofs/IniRoundTrip.lean`) and drops exactly the comment-named `; WARNING.n` lines of `[general]`
+(`Proofs/IniTextTie.lean`).  `TextOK` (as in `C04_tree_text`): the written document is representable in the file syntax. -/
+theorem C17_text (sp : Char → Bool) (hsp : IniParse.SpOK sp) (hh : sp '#' = false) (hs : sp ';' = false)
+    (t : TreeInfo) (mv : Option Str) (text : Str) (h : dumps t mv = .ok text)
+    (htext : ∀ d, serialize t mv = .ok d → TextOK sp d) :
+    ∃ d', IniParse.parse sp text = .ok d' ∧ Mirrors t mv d' := by
+  unfold dumps at h
+  cases hser : serialize t mv with
+  | error e => rw [hser] at h; cases h
+  | ok d =>
+    rw [hser] at h
+    simp only [Except.map] at h
+    injection h with h
+    subst h
+    obtain ⟨n0, key, chosen, w⟩ := serialize_spec hser
+    obtain ⟨hnl, hrep⟩ := htext d hser
+    refine ⟨readDoc d, ?_, (C17_mirror t mv d hser).congr (fun s k hk => opt_readDoc d s k hk)⟩
+    rw [render_eq_canon d w.view.noDefault]
+    exact IniParse.parse_render_dropComments hsp hh hs _ hnl hrep
+
+/-- `C17_text` for CPython's `str.isspace`, with the decidable representability criterion the driver evaluates -/
+theorem C17_text_py (t : TreeInfo) (mv : Option Str) (text : Str) (h : dumps t mv = .ok text)
+    (hrep : ∀ d, serialize t mv = .ok d → IniText.Representable d = true) :
+    ∃ d', IniParse.parse Str.isPySpace text = .ok d' ∧ Mirrors t mv d' :=
+  C17_text Str.isPySpace spOK_py py_hash py_semi t mv text h (fun d hd => textOK_of_representable d (hrep d hd))
+
+/-- **Platforms always include the tree architecture.**  `[tree] platforms`, hence `[general] platforms`, is the comma list
+of a strictly increasing list `L` (sorted, no duplicates) whose members are exactly the platforms of the tree and its
+architecture. -/
+theorem C17_platforms_include_arch (t : TreeInfo) (mv : Option Str) (d : Ini) (h : serialize t mv = .ok d) :
+    ∃ L : List Str, opt d sTree kPlatforms = some (Str.joinWith ',' L) ∧ opt d sGeneral kPlatforms = some (Str.joinWith ',' L) ∧
+      t.tree.arch ∈ L ∧ L.Pairwise (fun a b => a < b) ∧ ∀ p, p ∈ L ↔ (p ∈ t.tree.platforms ∨ p = t.tree.arch) := by
+  obtain ⟨n, key, v, _, _, _, _, _, _, _, _, _, _, hgp, htp, _⟩ := C17_mirror t mv d h
+  refine ⟨Str.sortDedup (t.tree.platforms ++ [t.tree.arch]), htp, by rw [hgp]; exact htp, ?_, sortDedup_sorted _, ?_⟩
+  · rw [mem_sortDedup]; simp
+  · intro p; rw [mem_sortDedup]; simp
+
+/-- **A requested main variant must designate a variant.**  If `dump(main_variant=mv)` succeeds, `mv` is written as
+`[general] variant` and designates a variant of the tree the way `VariantBase.__getitem__` resolves names: a top-level
+container key; or, only for a name containing `-` that is no key, the UID of a top-level variant, or a dashed path
+`<top-level key>-<rest>` into the children.  A name without a dash therefore IS a top-level container key. -/
+theorem C17_main_variant (t : TreeInfo) (mv : Str) (d : Ini) (h : serialize t (some mv) = .ok d) :
+    opt d sGeneral tVariant = some mv ∧ ∃ v, Designates t.variants mv v ∧
+      (mv.contains '-' = false → v ∈ t.variants ∧ v.key = mv) := by
+  obtain ⟨n, key, v, _, hkey, hget, _, _, _, _, _, _, _, _, _, _, _, hvar, _⟩ := C17_mirror t (some mv) d h
+  have e : key = mv := by simp only [chosenKey] at hkey; injection hkey with e; exact e.symm
+  subst e
+  exact ⟨hvar, v, getItem_designates _ _ _ _ hget, fun hd => getItem_dashless _ _ _ _ hd hget⟩
+
+/-- …and a name that designates nothing is refused: the dump cannot succeed, and the lookup itself fails with `KeyError`
+(never by running out of fuel) -/
+theorem C17_main_variant_refused (t : TreeInfo) (mv : Str) (e : Err)
+    (hno : getItem (mv.length + 1) t.variants mv = .error e) : e = .keyError ∧ ∀ d, serialize t (some mv) ≠ .ok d := by
+  refine ⟨getItem_error _ _ _ _ (by omega) hno, ?_⟩
+  intro d h
+  obtain ⟨n, key, v, _, hkey, hget, _⟩ := C17_mirror t (some mv) d h
+  have e' : key = mv := by simp only [chosenKey] at hkey; injection hkey with e'; exact e'.symm
+  subst e'
+  rw [hno] at hget; cases hget
+
+/-- **The default main variant is the least container key** in Python's string order (code points): it is the key of a
+top-level variant and every other key is `≥` it; there is none exactly when the tree has no variants (`IndexError`). -/
+theorem C17_default_main_variant (tops : List Variant) :
+    (∀ k, chosenKey tops none = .ok k → (∃ v ∈ tops, v.key = k) ∧ ∀ v ∈ tops, k ≤ v.key) ∧
+    (tops = [] ↔ chosenKey tops none = .error .indexError) := by
+  constructor
+  · intro k hk
+    simp only [chosenKey] at hk
+    cases hs : sortS (tops.map Variant.key) with
+    | nil => rw [hs] at hk; cases hk
+    | cons k0 r =>
+      rw [hs] at hk
+      injection hk with e; subst e
+      obtain ⟨hm, hmin⟩ := sortS_head_min _ _ _ hs
+      obtain ⟨v, hv, hvk⟩ := List.mem_map.mp hm
+      exact ⟨⟨v, hv, hvk⟩, fun w hw => hmin _ (List.mem_map.mpr ⟨w, hw, rfl⟩)⟩
+  · constructor
+    · intro e; subst e; rfl
+    · intro h
+      simp only [chosenKey] at h
+      cases hs : sortS (tops.map Variant.key) with
+      | nil =>
+        have := (sortBy_eq_nil id _).mp hs
+        simpa using this
+      | cons k0 r => rw [hs] at h; cases h
+
 /-! ### non-vacuity: a `src` tree with a nested addon, only source paths, media -/
 def C17_exTree : TreeInfo :=
   { headerVersion := "0.0".toList, release := ⟨"Fedora".toList, "F".toList, "21".toList⟩, isLayered := false, baseProduct := none,
@@ -113,5 +220,15 @@ example : (serialize C17_exTree none).toOption.map (fun d => (opt d sGeneral tVa
     = some (some "Client".toList, some "1417653911".toList) := by decide +kernel
 example : (serialize C17_exTree (some "Server".toList)).toOption.map (fun d => opt d sGeneral kPackagedir)
     = some (some "Packages".toList) := by decide +kernel
+
+/-- the text-level hypotheses hold of the example (representable document), and the conclusion evaluated on the bytes -/
+example : (serialize C17_exTree none).toOption.map IniText.Representable = some true := by decide +kernel
+example : ((dumps C17_exTree none).toOption.bind fun text => (IniParse.parse Str.isPySpace text).toOption.map fun d' =>
+    (opt d' sGeneral tVariant, opt d' sGeneral kPlatforms, opt d' sTree kPlatforms))
+    = some (some "Client".toList, some "src,xen".toList, some "src,xen".toList) := by decide +kernel
+/-- a name that designates nothing is refused with `KeyError`; a dashed path designates a child -/
+example : (match getItem 7 C17_exTree.variants "Nobody".toList with | .error .keyError => true | _ => false) = true := by decide +kernel
+example : (serialize C17_exTree (some "Nobody".toList)).toBool = false ∧ (serialize C17_exTree (some "Server-HA".toList)).toBool = true := by
+  decide +kernel
 
 end PM
